@@ -8,25 +8,11 @@ import (
 	"github.com/plgd-dev/go-coap/v3/message"
 	"github.com/plgd-dev/go-coap/v3/message/codes"
 	"github.com/plgd-dev/go-coap/v3/message/pool"
-	"github.com/plgd-dev/go-coap/v3/net/blockwise"
 	"github.com/plgd-dev/go-coap/v3/net/responsewriter"
 	"github.com/plgd-dev/go-coap/v3/udp/coder"
 )
 
 // C12 with block-wise transfer enabled on the real connection (ghost ownership state on, recycling pool).
-
-func zzBlockOpt(num int64, more bool) uint32 {
-	v, _ := blockwise.EncodeBlockOption(blockwise.SZX16, num, more)
-	return v
-}
-
-func zzBigBody(n int, seed byte) []byte {
-	b := make([]byte, n)
-	for i := range b {
-		b[i] = seed + byte(i)
-	}
-	return b
-}
 
 func zzIncoming(cc *Conn, mid int32, code codes.Code, tok message.Token, payload []byte, opt message.OptionID, optVal int64) {
 	req := cc.AcquireMessage(cc.Context())
